@@ -1,37 +1,18 @@
-(* C11 — executable model of spdx.go WITH the two proposed repairs applied
-   (/verif/fixes/C11-F1.patch, /verif/fixes/C11-F3.patch; NOT in /repo today):
+(* C11 — executable model of spdx.go with two repairs as switches:
+   [f1] = /verif/fixes/C11-F1.patch, IN /repo since 7c2586e (Model.Sbom.generate is
+   generate_r true false: model_is_numbered in Proofs/SbomNumbered.v);
+   [f3] = /verif/fixes/C11-F3.patch, a proposal, NOT in /repo:
    [f1] Generate numbers the id of an apk element whose id is already taken by a
         package with another name or version
         (for base, n := p.ID, 2; idTakenByAnother(doc, &p); n++ { p.ID = base-n }),
    [f3] the replace loop of ProcessInternalApkSBOM never picks one of the imported
         target elements as the element to replace.
-   generate_r false false is Model.Sbom.generate (repair_off in Proofs/SbomRepairProofs.v).
+   generate_r false false is Model.Sbom.generate_u, the code before 7c2586e (repair_off in
+   Proofs/SbomRepairProofs.v).  dec / numbered / taken / pick_id / with_id live in Model/Sbom.v.
    No proofs here. *)
 From Coq Require Import DecimalString DecimalN.
 From Apko Require Import Base.Prelude Base.Regex Generated.Regexes Model.Sbom.
 Open Scope string_scope. Open Scope list_scope.
-
-(* fmt.Sprintf("%d", n) for n >= 0 *)
-Definition dec (n : N) : string := NilEmpty.string_of_uint (N.to_uint n).
-Definition numbered (base : string) (n : N) : string := base +++ "-" +++ dec n.
-
-(* idTakenByAnother: a package with this id and another name or version *)
-Definition taken (ps : list pkg) (name version c : string) : bool :=
-  existsb (fun q => String.eqb (p_id q) c && negb (String.eqb (p_name q) name && String.eqb (p_version q) version)) ps.
-
-(* the loop body: try base-n, base-(n+1), ... *)
-Fixpoint pick_from (fuel : nat) (ps : list pkg) (name version base : string) (n : N) : res string :=
-  match fuel with
-  | O => OutOfFuel
-  | S f => let c := numbered base n in
-           if taken ps name version c then pick_from f ps name version base (n + 1) else Ok c
-  end.
-(* among |ps|+1 numbered candidates one is free: pick_id_never_out_of_fuel *)
-Definition pick_id (ps : list pkg) (name version base : string) : res string :=
-  if taken ps name version base then pick_from (S (List.length ps)) ps name version base 2 else Ok base.
-
-Definition with_id (p : pkg) (i : string) : pkg :=
-  {| p_id := i; p_name := p_name p; p_version := p_version p; p_sums := p_sums p |}.
 
 (* one iteration of the replace loop; [tg] = the keys of targetElementIDs *)
 Definition replace_step_r (f3 : bool) (pname : string) (tg : list string) (d : doc) (id : string) : doc :=
